@@ -26,7 +26,9 @@ def shapes(tier, seed):
             out.append({"kind": "raw", "prog": node, "params": p.params, "cons": p.cons, "n": n})
     for labs, node, p in templates.unary_sequences(X, sqlprogs.LEAFCOLS, 3, "std", slice_hi=hi, labels=RAW3):
         out.append({"kind": "raw", "prog": node, "params": p.params, "cons": p.cons, "n": n})
-    for node, params, cons in sqlprogs.binary_programs("quick", 4)[::3] + sqlprogs.nested_programs(tier, 4):
+    bins = sqlprogs.binary_programs("quick", 4)
+    bins = [b for b in bins if len(ops_of(b[0])) >= 3][::2] + [b for b in bins if len(ops_of(b[0])) < 3][::3]
+    for node, params, cons in bins + sqlprogs.nested_programs(tier, 4):
         out.append({"kind": "raw", "prog": node, "params": params, "cons": cons, "n": 2})
     return out
 
